@@ -393,3 +393,85 @@ Proof.
   rewrite pos_match_flat in Hm. simpl in Hpos. rewrite <- Hpos, F1 in Hm. inversion Hm; subst vals.
   unfold sr_tokens. rewrite <- Hpath, <- F2, Hkeys, Hnames, Hvals. auto.
 Qed.
+
+(* ------------------------------------------------------------------ and answers as documented *)
+
+Lemma em_length : forall ts segs vs, expr_match ts segs = Some vs -> length vs = length (declared_names ts).
+Proof.
+  induction ts as [|[s|n|n] tr IH]; intros segs vs.
+  - intro H. apply em_nil_l in H as [_ ->]. reflexivity.
+  - destruct segs as [|x sr]; [intro H; apply em_nil_r in H as [H _]; discriminate|].
+    rewrite em_lit. destruct (String.eqb s x); [|discriminate]. simpl. apply IH.
+  - destruct segs as [|x sr]; [intro H; apply em_nil_r in H as [H _]; discriminate|].
+    rewrite em_wild. destruct (String.eqb x ""); [discriminate|].
+    destruct (expr_match tr sr) as [v0|] eqn:E; [|discriminate]. intro H. inversion H. simpl.
+    rewrite (IH _ _ E). reflexivity.
+  - destruct tr as [|t tr']; [|rewrite em_free_more; discriminate].
+    destruct segs as [|x sr]; [discriminate|]. rewrite em_free_last.
+    destruct (String.eqb _ ""); [discriminate|]. intro H. inversion H. reflexivity.
+Qed.
+
+Lemma route_semantics_cm fx1 fx4 fx6 fx7 eng r cr path cm :
+  create_rule fx4 r = Ok cr -> In (path, cm) (cr_routes cr) ->
+  forall q keys vals,
+    length keys = length vals -> Forall valid_enc vals -> Forall (from_path q) vals ->
+    guard_F1 fx1 eng (rl_hosts r) q = false ->
+    guard_F4 fx4 (rl_methods r) = false ->
+    on_params (guard_F6 fx6) (rl_slash r) q keys vals (cm_params cm) = false ->
+    on_params (guard_F7 fx7) (rl_slash r) q keys vals (cm_params cm) = false ->
+    on_params (guard_F8 fx7) (rl_slash r) q keys vals (cm_params cm) = false ->
+    route_matches fx1 fx6 fx7 eng cm q keys vals = of_bool (spec_route_ok eng r (cm_params cm) q keys vals).
+Proof.
+  intros Hc Hin.
+  destruct (create_rule_inv _ _ _ Hc) as (mm & Hm & _ & _ & _ & _ & Hr).
+  rewrite Hr in Hin. apply in_map_iff in Hin as (rt & E & Hrt). inversion E; subst path cm. clear E.
+  intros q keys vals Hl Hv Hfp H1 H4 H6 H7 H8. simpl in *.
+  unfold route_matches, spec_route_ok. simpl.
+  rewrite scheme_semantics, (method_list_semantics _ _ _ q Hm H4), (hosts_semantics _ _ _ _ H1).
+  rewrite (params_semantics fx6 fx7 eng _ q keys vals _ Hl Hv Hfp H6 H7 H8).
+  destruct (spec_scheme (rl_scheme r) q); [|reflexivity].
+  destruct (spec_method (rl_methods r) (q_method q)); [|reflexivity].
+  destruct (spec_hosts eng (rl_hosts r) q); reflexivity.
+Qed.
+
+(** the finding guards of a route on a request, on the names and segments of the specification *)
+Definition route_guards (fx1 fx4 fx6 : bool) (fx7 : dec) (eng : engine) (s : sroute) (q : request)
+           (segs : list string) : bool :=
+  let d := sr_def s in
+  let names := declared_names (sr_tokens s) in
+  let ps := rt_params (sr_route s) in
+  guard_F1 fx1 eng (rl_hosts d) q || guard_F4 fx4 (rl_methods d) ||
+  on_params (guard_F6 fx6) (rl_slash d) q names segs ps ||
+  on_params (guard_F7 fx7) (rl_slash d) q names segs ps ||
+  on_params (guard_F8 fx7) (rl_slash d) q names segs ps.
+
+(** end to end: in a loaded rule set every matcher call made for a route whose expression
+    matches the request path answers exactly as the documented conditions say *)
+Theorem lookup_answers_spec : forall fx1 fx4 fx6 fx7 eng ds es t q,
+  load true fx4 ds = Loaded es t ->
+  forall k, In k (snd (serve fx1 true true fx6 fx7 eng es t q)) ->
+  forall s segs, nth_error (flat_routes 0 ds) (k_vid k) = Some s -> sr_segs s q = Some segs ->
+    Forall valid_enc segs -> Forall (from_path q) segs ->
+    route_guards fx1 fx4 fx6 fx7 eng s q segs = false ->
+    k_res k = spec_answer eng s q segs.
+Proof.
+  intros fx1 fx4 fx6 fx7 eng ds es t q Hload k Hk s segs Hs Hsegs Hv Hfp Hg.
+  destruct (matcher_sees_route_keys fx1 fx4 fx6 fx7 eng ds es t q Hload k Hk s segs Hs Hsegs) as [Hkeys Hvals].
+  assert (Hres : call_res (matcher_of fx1 fx6 fx7 eng es q) k).
+  { rewrite serve_calls in Hk. eapply find_node_res. exact Hk. }
+  unfold call_res, matcher_of in Hres.
+  destruct (nth_error es (k_vid k)) as [e|] eqn:He.
+  2:{ (* the table and the rule set have the same length *)
+      exfalso. assert (HF := loaded_table _ _ _ _ Hload).
+      apply nth_error_None in He. assert (Hlen : length es = length (flat_routes 0 ds)) by (clear -HF; induction HF; simpl; congruence).
+      assert (Hs' : nth_error (flat_routes 0 ds) (k_vid k) <> None) by congruence.
+      apply nth_error_Some in Hs'. lia. }
+  destruct (Forall2_nth _ _ _ (loaded_table _ _ _ _ Hload) _ _ _ He Hs)
+    as (cr & Hcr & Hin & _ & Hpath & Hparams & Hslash).
+  unfold route_guards in Hg. cbv zeta in Hg.
+  repeat (apply orb_false_iff in Hg as [Hg ?]).
+  rewrite Hres, Hkeys, Hvals. unfold spec_answer. rewrite <- Hparams.
+  apply (route_semantics_cm fx1 fx4 fx6 fx7 eng (sr_def s) cr (ce_path e) (ce_m e) Hcr Hin);
+    try assumption; try (rewrite Hparams; assumption).
+  unfold sr_segs in Hsegs. symmetry. exact (em_length _ _ _ Hsegs).
+Qed.
